@@ -71,6 +71,7 @@ func runC06(c *Ctx) {
 	c.c06IntoRuleAppliedOnce()
 	c.c06NothingCreatedForACopyThatWillBeRefused()
 	c.c06ClimbingLoopsStopAtTheFixedPoint()
+	c.c06MoveOntoItselfWhateverTheKind()
 	c.c06CancellationIsReported()
 	if os.Getenv("GUCHECK_EXPLORE") == "forwarders" {
 		c.exploreForwarders()
@@ -2208,4 +2209,76 @@ func (c *Ctx) c06ClimbingLoopsStopAtTheFixedPoint() {
 				"the loop climbs with filepath.Dir and has no exit on Dir(p) == p: it ends only where the path takes a particular spelling (the separator), which a relative path, an empty name or a Windows volume never takes — filepath.Dir settles on \".\" and the call never returns: Copy(dir, \"\") and Copy(\"d\", \"copy\") of a directory spin for ever")
 		})
 	}
+}
+
+// c06MoveOntoItselfWhateverTheKind (Z29): "a move never alters or removes anything other than its source and destination …
+// identically on the OS-backed and the in-memory backend". MoveBetweenFS copies and then removes its source; where the
+// source already is the entry of that name in the destination directory the copy has nothing to do and the removal would
+// delete the only copy. The guard against that goes by the paths (Join(dest, Base(src)) == src) for files and directories
+// alike: it does not ask what kind of thing the source is (the defect F92 of the pinned sources, repaired: directories
+// were left to the backend's own 'same file' test, which the in-memory backend cannot make).
+func (c *Ctx) c06MoveOntoItselfWhateverTheKind() {
+	c.rule("Z29", "the guard of MoveBetweenFS against moving an entry into the directory it already sits in compares paths whatever the kind of the source: the helper that makes the comparison does not ask whether the source is a directory", 1)
+	mv := c.fnOpt(fsPkgRel, "MoveBetweenFS")
+	if mv == nil {
+		return
+	}
+	c.FuncsSeen[fname(mv)] = true
+	// the helper(s) of the package the guard calls with the source and the destination, and MoveBetweenFS itself
+	cands := []*ssa.Function{mv}
+	allInstrs(mv, func(in ssa.Instruction) {
+		if cl, ok := in.(*ssa.Call); ok {
+			if g := staticCallee(&cl.Call); g != nil && inPkg(fsPkgRel)(g) && g.Blocks != nil && g.Signature.Results().Len() == 1 && g.Signature.Results().At(0).Type().String() == "bool" {
+				cands = append(cands, g)
+			}
+		}
+	})
+	compares := false
+	bad := ""
+	for _, g := range cands {
+		si := paramIndexByName(g, "src")
+		// the comparison Join(dest, Base(src)) == src
+		has := false
+		allInstrs(g, func(in ssa.Instruction) {
+			bo, ok := in.(*ssa.BinOp)
+			if !ok || bo.Op != token.EQL || bo.X.Type().String() != "string" {
+				return
+			}
+			viaBase := false
+			for _, side := range []ssa.Value{bo.X, bo.Y} {
+				sources(side, deriveOpts{through: func(n string) bool {
+					if strings.HasSuffix(n, "filepath.Base") {
+						viaBase = true
+					}
+					return true
+				}})
+			}
+			if viaBase {
+				has = true
+			}
+		})
+		if !has {
+			continue
+		}
+		compares = true
+		if g == mv || si < 0 {
+			continue
+		}
+		allInstrs(g, func(in ssa.Instruction) {
+			cl, ok := in.(*ssa.Call)
+			if !ok {
+				return
+			}
+			if nm, args, isFs := fsMethodCall(cl); isFs && (nm == "IsDir" || nm == "IsFile") && len(args) > 0 && resolveValue(args[0]) == ssa.Value(g.Params[si]) {
+				bad = c.ipos(cl) + " (" + nm + " of the source in " + fname(g) + ")"
+			}
+		})
+	}
+	key := fname(mv) + "/onto-itself-whatever-the-kind"
+	if !compares {
+		c.violate("Z29", key, c.pos(mv.Pos()), "MoveBetweenFS no longer compares Join(dest, Base(src)) with src before it copies and removes: an entry moved into the directory it already sits in is copied onto itself and then deleted")
+		return
+	}
+	c.check(bad == "", "Z29", key, c.pos(mv.Pos()), "the comparison is made for files and directories alike",
+		"the guard asks what kind of thing the source is at "+bad+": a directory moved into the directory it already sits in (MoveBetweenFS(d/e, d)) is left to the backend's own 'same file' test, which the in-memory backend cannot make — the copy finds nothing to do, the source is then removed, and d/e is gone with its content while the OS backend leaves it alone")
 }
